@@ -83,6 +83,7 @@ type plugin struct {
 	path string
 	mode string
 	dir  string
+	st   stub.Stub
 }
 
 func (p *plugin) save() {
@@ -105,6 +106,10 @@ func (p *plugin) Synchronize(_ context.Context, pods []*api.PodSandbox, ctrs []*
 	defer p.mu.Unlock()
 	if p.mode == "syncfail" {
 		return nil, fmt.Errorf("probe refuses to synchronize")
+	}
+	if p.mode == "synchang" {
+		p.mu.Unlock()
+		linger() // never answers the synchronization request
 	}
 	p.rep.Synced = true
 	p.save()
@@ -129,6 +134,18 @@ func (p *plugin) StartContainer(_ context.Context, pod *api.PodSandbox, ctr *api
 	}
 	if p.mode == "hang" {
 		linger()
+	}
+	if p.mode == "closeidle" {
+		p.mu.Lock()
+		n := p.rep.Events
+		p.mu.Unlock()
+		if n == 2 {
+			// after the last event: drop the connection while the runtime is idle, stay alive
+			go func() {
+				time.Sleep(20 * time.Millisecond)
+				p.st.Stop()
+			}()
+		}
 	}
 	return nil
 }
@@ -168,6 +185,7 @@ func MaybeRun() {
 		p.save()
 		os.Exit(2)
 	}
+	p.st = st
 	st.Run(context.Background())
 	linger()
 }
